@@ -130,6 +130,16 @@ def run_subtotal_case(case):
         if info[0] != "ok" or r[0] != "ok":
             fails.append({"what": "column_index:subtotals", "impl": (info[1:], r[1:])})
             continue
+        # READ-ORDER LEG (common_cases.late_reads): column_index read after every other public read of
+        # a second partition is the one of the fresh partition
+        from harness.props import common_cases as cc
+        population, late = cc.late_reads({"response": case["response"], "transforms": None,
+                                          "k": 1000 * int(case.get("k", 0)) + k},
+                                         ["column_index"], {"column_index": r}, transforms=None, k=k)
+        for nm, a, b, culprits in late[:1]:
+            fails.append({"what": "column_index depends on what was read before", "fresh": a,
+                          "after_other_reads": b, "population": population, "partition": k,
+                          "single_earlier_reads_that_change_it": culprits})
         (nr, nrs, nc, ncs), ro, co = info[1]
         n += nrs + ncs
         blk = impl.blocks2d(r[1], ro, co, nr, nc, nrs, ncs)
